@@ -28,6 +28,10 @@ JUSTIFIED = {k: _c07.JUSTIFIED[k] for k in (
 )}
 
 
+# functions that bound the decoding depth (none today)
+DEPTH_GUARDS = ()
+
+
 def roots(fa):
     r = [b for b in fa.bodies.values() if b.crate == "agdb" and b.d.get("name") == "deserialize" and
          (b.d.get("impl_trait") or "").endswith("serialize::Serialize")]
@@ -41,5 +45,8 @@ def roots(fa):
 def run(ctx):
     rs = roots(ctx.facts)
     ctx.floor("R21", "decoder entry points", len(rs), 70)
-    run_panic_rule(ctx, "R21", rs, JUSTIFIED, overflow_fns=("::deserialize", "::load", "::try_from"), floor=100)
+    seen, cg = run_panic_rule(ctx, "R21", rs, JUSTIFIED, overflow_fns=("::deserialize", "::load", "::try_from"), floor=100)
+    # R21b: no unbounded recursion through the decoders (stack exhaustion on deeply nested input)
+    from rules.panic_common import recursion_rule
+    recursion_rule(ctx, "R21b", seen, cg, depth_guards=DEPTH_GUARDS)
     return 0
